@@ -20,6 +20,7 @@ package main
 import (
 	"fmt"
 	"go/ast"
+	"go/printer"
 	"go/token"
 	"go/types"
 	"os"
@@ -43,6 +44,10 @@ type hdrCtx struct {
 	elemIsKey  bool   // KeySet: the elements are keys themselves
 	signMode   bool
 	sigVar     string // the range variable over the signatures
+	// WithSign mode (T16): the per-signer loop of SignMessage.WithSign; sigVar is the *Signature built in the body
+	wsMode    bool
+	signerVar string // the range variable over the signers
+	mmVar     string // the local wire struct whose Signatures list is appended to
 }
 
 var claimsFields = map[string]string{"Expiration": "c_exp", "NotBefore": "c_nbf", "IssuedAt": "c_iat", "Issuer": "c_iss", "Audience": "c_aud"}
@@ -156,7 +161,16 @@ func (f *ftr) hdrVar(e ast.Expr) (string, bool) {
 		return "", false
 	}
 	id, ok := sel.X.(*ast.Ident)
-	if !ok || id.Name != f.hdr.recv {
+	if !ok {
+		return "", false
+	}
+	if f.hdr.wsMode {
+		if f.hdr.sigVar != "" && id.Name == f.hdr.sigVar && (sel.Sel.Name == "Protected" || sel.Sel.Name == "Unprotected") {
+			return "sig_" + sel.Sel.Name, true
+		}
+		return "", false
+	}
+	if id.Name != f.hdr.recv {
 		return "", false
 	}
 	if sel.Sel.Name == "Protected" || sel.Sel.Name == "Unprotected" {
@@ -227,6 +241,11 @@ func (f *ftr) hdrExpr(e ast.Expr) (term, bool) {
 	}
 	if f.hdr.lookupMode || f.hdr.signMode {
 		return f.signExpr(e)
+	}
+	if f.hdr.wsMode {
+		if t, ok := f.wsExpr(e); ok {
+			return t, true
+		}
 	}
 	if v, ok := f.hdrVar(e); ok {
 		return term{v, true}, true
@@ -323,6 +342,11 @@ func (f *ftr) hdrStmt(s ast.Stmt, next ast.Stmt) ([]irStmt, int, bool) {
 	}
 	if f.hdr.lookupMode || f.hdr.signMode {
 		return f.signStmt(s, next)
+	}
+	if f.hdr.wsMode {
+		if ir, skip, ok := f.wsStmt(s, next); ok {
+			return ir, skip, true
+		}
 	}
 	switch x := s.(type) {
 	case *ast.AssignStmt:
@@ -1307,10 +1331,216 @@ func (f *ftr) signStmt(s ast.Stmt, next ast.Stmt) ([]irStmt, int, bool) {
 	return nil, 0, false
 }
 
+// ---- T16: the per-signer loop of SignMessage.WithSign
+//
+//	sig := &Signature{Protected: Headers{}, Unprotected: Headers{}}     sig_Protected, sig_Unprotected : hdr (a field left out is a nil map)
+//	signer.Key().Alg(), signer.Key().Kid()                               key_alg (sg_key signer), kid (sg_key signer)
+//	sig.Protected[L] = v                                                 do sig_Protected <- oset sig_Protected L v   (T12)
+//	protected, _ := sig.Protected.Bytes()                                headers_bytes (omap sig_Protected) : option bytes
+//	sig.toSign = mm.toSign(protected, externalData)                      do sig_toSign <- structure KSign (Some pb) protected externalData payload
+//	if sig.Signature, err = signer.Sign(sig.toSign); err != nil {return err}     do sig_Signature <- sg_sign signer sig_toSign
+//	mm.Signatures = append(mm.Signatures, sig)                           acc := acc ++ [entry]
+func (f *ftr) wsExpr(e ast.Expr) (term, bool) {
+	h := f.hdr
+	if r, names, ok := chain(e); ok && r != nil {
+		path := strings.Join(names, ".")
+		switch {
+		case r.Name == h.signerVar && path == "Key().Alg()":
+			return term{"(key_alg (sg_key " + f.nameOf(r) + "))", true}, true
+		case r.Name == h.signerVar && path == "Key().Kid()":
+			return term{"(kid (sg_key " + f.nameOf(r) + "))", true}, true
+		case h.sigVar != "" && r.Name == h.sigVar && path == "toSign":
+			return term{"sig_toSign", true}, true
+		}
+	}
+	return term{}, false
+}
+
+func (f *ftr) wsStmt(s ast.Stmt, next ast.Stmt) ([]irStmt, int, bool) {
+	h := f.hdr
+	switch x := s.(type) {
+	case *ast.AssignStmt:
+		if len(x.Rhs) != 1 {
+			return nil, 0, false
+		}
+		// sig := &Signature{Protected: Headers{}, Unprotected: Headers{}}
+		if len(x.Lhs) == 1 && x.Tok == token.DEFINE {
+			if u, ok := x.Rhs[0].(*ast.UnaryExpr); ok && u.Op == token.AND {
+				if cl, ok := u.X.(*ast.CompositeLit); ok {
+					if n, ok := f.typeOf(cl).(*types.Named); ok && n.Obj().Name() == "Signature" {
+						id := x.Lhs[0].(*ast.Ident)
+						if h.sigVar != "" {
+							f.fail(x, "a second Signature literal in the loop")
+							return nil, 0, true
+						}
+						h.sigVar = id.Name
+						vals := map[string]string{"Protected": "None", "Unprotected": "None"}
+						for _, el := range cl.Elts {
+							kv, ok := el.(*ast.KeyValueExpr)
+							if !ok {
+								f.fail(x, "positional Signature literal")
+								return nil, 0, true
+							}
+							k, _ := kv.Key.(*ast.Ident)
+							if k == nil || (k.Name != "Protected" && k.Name != "Unprotected") {
+								f.fail(x, "the Signature literal sets a field other than the two buckets")
+								return nil, 0, true
+							}
+							t := f.expr(kv.Value)
+							if !t.pure {
+								f.fail(x, "effectful bucket initialiser")
+								return nil, 0, true
+							}
+							vals[k.Name] = t.s
+						}
+						return []irStmt{irBind{"sig_Protected", term{vals["Protected"], true}}, irBind{"sig_Unprotected", term{vals["Unprotected"], true}}}, 0, true
+					}
+				}
+			}
+		}
+		// protected, _ := sig.Protected.Bytes()
+		if len(x.Lhs) == 2 {
+			v, vok := x.Lhs[0].(*ast.Ident)
+			e, eok := x.Lhs[1].(*ast.Ident)
+			call, cok := x.Rhs[0].(*ast.CallExpr)
+			if vok && eok && cok && e.Name == "_" && len(call.Args) == 0 {
+				if sel, ok := call.Fun.(*ast.SelectorExpr); ok && sel.Sel.Name == "Bytes" {
+					if hv, ok := f.hdrVar(sel.X); ok {
+						if x.Tok == token.DEFINE {
+							f.declare(v, v.Name)
+						}
+						return []irStmt{irBind{f.nameOf(v), term{"(headers_bytes (omap " + hv + "))", true}}}, 0, true
+					}
+				}
+			}
+		}
+		if len(x.Lhs) == 1 && x.Tok == token.ASSIGN {
+			if r, names, ok := chain(x.Lhs[0]); ok && r != nil {
+				path := strings.Join(names, ".")
+				// sig.toSign = mm.toSign(protected, externalData)
+				if h.sigVar != "" && r.Name == h.sigVar && path == "toSign" {
+					if call, ok := x.Rhs[0].(*ast.CallExpr); ok && len(call.Args) == 2 {
+						if rr, nn, ok := chain(call.Fun); ok && rr != nil && rr.Name == h.mmVar && strings.Join(nn, ".") == "toSign" {
+							pa, a := f.bind(f.expr(call.Args[0]))
+							pb, b := f.bind(f.expr(call.Args[1]))
+							if pa == "" && pb == "" {
+								return []irStmt{irBind{"sig_toSign", term{"(structure KSign (Some pb) " + a + " " + b + " payload)", false}}}, 0, true
+							}
+						}
+					}
+					f.fail(x, "toSign is not assigned the Sig_structure of the wire struct")
+					return nil, 0, true
+				}
+				// mm.Signatures = append(mm.Signatures, sig)
+				if r.Name == h.mmVar && path == "Signatures" {
+					if call, ok := x.Rhs[0].(*ast.CallExpr); ok && len(call.Args) == 2 && call.Ellipsis == token.NoPos {
+						if fn, ok := call.Fun.(*ast.Ident); ok && fn.Name == "append" && types.ExprString(call.Args[0]) == types.ExprString(x.Lhs[0]) {
+							if a, ok := call.Args[1].(*ast.Ident); ok && a.Name == h.sigVar {
+								return []irStmt{irBind{"acc", term{"(acc ++ [mk_sigout sig_Protected sig_Unprotected sig_Signature])", true}}}, 0, true
+							}
+						}
+					}
+					f.fail(x, "the signature list is not extended by append(list, sig)")
+					return nil, 0, true
+				}
+			}
+		}
+	case *ast.IfStmt:
+		// if sig.Signature, err = signer.Sign(sig.toSign); err != nil { return err }
+		if a, ok := x.Init.(*ast.AssignStmt); ok && len(a.Lhs) == 2 && len(a.Rhs) == 1 && a.Tok == token.ASSIGN && types.ExprString(a.Lhs[1]) == "err" &&
+			types.ExprString(x.Cond) == "err != nil" && x.Else == nil && len(x.Body.List) == 1 {
+			r, rok := x.Body.List[0].(*ast.ReturnStmt)
+			lr, ln, lok := chain(a.Lhs[0])
+			call, cok := a.Rhs[0].(*ast.CallExpr)
+			if rok && lok && cok && len(r.Results) == 1 && isErrCtor(f, r.Results[0]) && lr != nil && lr.Name == h.sigVar && strings.Join(ln, ".") == "Signature" && len(call.Args) == 1 {
+				if sel, ok := call.Fun.(*ast.SelectorExpr); ok && sel.Sel.Name == "Sign" {
+					if id, ok := sel.X.(*ast.Ident); ok && id.Name == h.signerVar {
+						p, v := f.bind(f.expr(call.Args[0]))
+						if p == "" {
+							return []irStmt{irBind{"sig_Signature", term{"(sg_sign " + f.nameOf(id) + " " + v + ")", false}}}, 0, true
+						}
+					}
+				}
+			}
+		}
+	}
+	return nil, 0, false
+}
+
+func genWithSignLoop(ps []pkgInfo, find func(short, fn string) (*pkgInfo, *ast.FuncDecl)) string {
+	var b strings.Builder
+	name := "cose_SignMessage_WithSign_loop"
+	stub := func(why string) string {
+		fmt.Fprintln(os.Stderr, "gen: T16:", name, "not translated:", why)
+		return fmt.Sprintf("(* %s — NOT TRANSLATED: %s *)\nDefinition %s (signers : list sigprim) (externalData : option bytes) (pb : bytes) (payload : option bytes) : res (list sigout) := Panic.\nDefinition cose_SignMessage_WithSign_after_loop : list string := [].\n\n", name, strings.ReplaceAll(why, "*)", "* )"), name)
+	}
+	pi, fd := find("cose", "SignMessage_WithSign")
+	if fd == nil || fd.Recv == nil || len(fd.Recv.List) != 1 || len(fd.Recv.List[0].Names) != 1 || len(fd.Type.Params.List) != 2 ||
+		len(fd.Type.Params.List[0].Names) != 1 || len(fd.Type.Params.List[1].Names) != 1 {
+		return stub("method not found or of another signature")
+	}
+	sp, ep := fd.Type.Params.List[0].Names[0], fd.Type.Params.List[1].Names[0]
+	// the loop: the one top-level `for _, s := range <signers>`
+	var loop *ast.RangeStmt
+	li := -1
+	for i, st := range fd.Body.List {
+		if r, ok := st.(*ast.RangeStmt); ok {
+			if id, ok := r.X.(*ast.Ident); ok && id.Name == sp.Name {
+				if loop != nil {
+					return stub("two loops over the signers")
+				}
+				loop, li = r, i
+			}
+		}
+	}
+	if loop == nil {
+		return stub("no top-level range over the signers")
+	}
+	val, ok := loop.Value.(*ast.Ident)
+	if !ok || val.Name == "_" {
+		return stub("the loop does not name the signer")
+	}
+	// the local wire struct: the variable X of the statement `m.mm = X` after the loop
+	recv := fd.Recv.List[0].Names[0].Name
+	mmVar := ""
+	var after []string
+	for _, st := range fd.Body.List[li+1:] {
+		var sb strings.Builder
+		printer.Fprint(&sb, pi.p.Fset, st)
+		after = append(after, strings.Join(strings.Fields(sb.String()), " "))
+		if a, ok := st.(*ast.AssignStmt); ok && len(a.Lhs) == 1 && len(a.Rhs) == 1 && a.Tok == token.ASSIGN && types.ExprString(a.Lhs[0]) == recv+".mm" {
+			if id, ok := a.Rhs[0].(*ast.Ident); ok {
+				mmVar = id.Name
+			}
+		}
+	}
+	if mmVar == "" {
+		return stub("the wire struct is not installed by `m.mm = <local>` after the loop")
+	}
+	f := &ftr{pi: *pi, all: ps, fd: fd, declared: map[string]int{}, byteVars: map[string]string{}, names: map[types.Object]string{},
+		hdr: &hdrCtx{recv: recv, wsMode: true, signerVar: val.Name, mmVar: mmVar}}
+	for _, r := range []string{"pb", "payload", "acc", "sig_Protected", "sig_Unprotected", "sig_toSign", "sig_Signature"} {
+		f.declared[r] = 1
+	}
+	f.declare(sp, sp.Name)
+	f.declare(ep, ep.Name)
+	sn, en := f.nameOf(sp), f.nameOf(ep)
+	ir := f.lower([]ast.Stmt{loop})
+	ir = append(ir, irReturn{term{"acc", true}})
+	body := f.emit(ir, kont{kind: 0}, map[string]bool{sn: true, en: true, "acc": true, "pb": true, "payload": true})
+	if f.err != nil {
+		return stub(f.err.Error())
+	}
+	pos := pi.p.Fset.Position(loop.Pos())
+	fmt.Fprintf(&b, "(* SignMessage.WithSign, the loop over the signers (pb: the encoded body protected bucket, payload: the payload member of the wire struct; the result is the list appended to mm.Signatures) — %s:%d *)\nDefinition %s (%s : list sigprim) (%s : option bytes) (pb : bytes) (payload : option bytes) : res (list sigout) :=\n  let acc := ([] : list sigout) in\n  %s.\n\n", strings.TrimPrefix(pos.Filename, *repo+"/"), pos.Line, name, sn, en, body)
+	fmt.Fprintf(&b, "(* the statements of WithSign after the loop *)\nDefinition cose_SignMessage_WithSign_after_loop : list string := [%s].\n\n", strings.Join(quoteAll(after), "; "))
+	return b.String()
+}
+
 func genLookups(ps []pkgInfo) string {
 	var b strings.Builder
 	b.WriteString("(* GENERATED by /verif/tools/gen (T15: lookup by key id; the per-signature loop of SignMessage.Verify) from the ldclabs/cose working tree. Do not edit. *)\n")
-	b.WriteString("From Coq Require Import List ZArith Bool.\nFrom Coq Require Import Strings.Byte.\nFrom Cose Require Import Lib.Base Lib.Cbor Lib.GoSem Model.GoVal Model.Wire Model.Key Model.MsgLogic Model.Msg Model.HdrSem.\nImport ListNotations.\nOpen Scope Z_scope.\n\n")
+	b.WriteString("From Coq Require Import List ZArith Bool String.\nFrom Coq Require Import Strings.Byte.\nFrom Cose Require Import Lib.Base Lib.Cbor Lib.GoSem Model.GoVal Model.Wire Model.Key Model.MsgLogic Model.Msg Model.HdrSem.\nImport ListNotations.\nOpen Scope Z_scope.\n\n")
 	find := func(short, fn string) (*pkgInfo, *ast.FuncDecl) {
 		for i := range ps {
 			if ps[i].short != short {
@@ -1384,5 +1614,6 @@ func genLookups(ps []pkgInfo) string {
 			}
 		}
 	}
+	b.WriteString(genWithSignLoop(ps, find))
 	return b.String()
 }
